@@ -30,6 +30,7 @@ func allInstances() []*Instance {
 	regC06(add, p)
 	regC07(add, p)
 	regC08(add, p)
+	regC15(add, p)
 	return all
 }
 
@@ -273,5 +274,18 @@ func regC08(add addFn, p pFn) {
 	add(&Instance{Property: "C08", Name: "default-params", Entry: "crypto.VH_C08_DefaultParams", Reach: []string{"done"}, Bound: "the six etypes"})
 	for _, n := range []int{1, 5, 8, 13, 16} {
 		add(&Instance{Property: "C08", Name: "rotate-n" + itoa(n), Entry: "crypto/rfc3961.VH_C08_RotateRight", Params: p("n", n, "reps", 21), Reach: []string{"done"}, Bound: "every n-byte string, rotation steps 13*i for i in 0..20"})
+	}
+}
+
+func regC15(add addFn, p pFn) {
+	for v := 1; v <= 4; v++ {
+		add(&Instance{Property: "C15", Name: "writer-v" + itoa(v) + "-c1", Entry: "credentials.VH_C15_IndependentWriter", Params: p("version", v, "creds", 1, "comps", 2, "slen", 1, "klen", 2, "addrs", 1, "tlen", 3, "hdr", 1, "conf", 0), Reach: []string{"parsed", "done"},
+			Bound: "1 credential; 0..2 components per principal, 1-byte strings, 2-byte key, 0..1 addresses and authdata entries, 3-byte ticket, 0..1-byte second ticket, v4 header with 1 field; all contents symbolic; times full 32-bit"})
+		add(&Instance{Property: "C15", Name: "writer-v" + itoa(v) + "-c0", Entry: "credentials.VH_C15_IndependentWriter", Params: p("version", v, "creds", 0, "comps", 2, "slen", 1, "klen", 0, "addrs", 0, "tlen", 0, "hdr", 0, "conf", 0), Reach: []string{"parsed", "done"},
+			Bound: "no credentials, v4 header without fields"})
+		add(&Instance{Property: "C15", Name: "writer-v" + itoa(v) + "-conf", Entry: "credentials.VH_C15_IndependentWriter", Params: p("version", v, "creds", 2, "comps", 1, "slen", 1, "klen", 1, "addrs", 0, "tlen", 1, "hdr", 1, "conf", 1), Reach: []string{"parsed", "done"},
+			Bound: "2 credentials, the first a X-CACHECONF configuration entry"})
+		add(&Instance{Property: "C15", Name: "writer-v" + itoa(v) + "-c2", Entry: "credentials.VH_C15_IndependentWriter", Params: p("version", v, "creds", 2, "comps", 2, "slen", 2, "klen", 4, "addrs", 2, "tlen", 4, "hdr", 2, "conf", 2), Tier: "thorough", Reach: []string{"parsed", "done"}, TimeoutS: 1500,
+			Bound: "2 credentials (second a configuration entry), 0..2 components, 2-byte strings, 4-byte keys, 0..2 addresses/authdata, v4 header with 2 fields"})
 	}
 }
